@@ -109,6 +109,28 @@ def segment_circle(h, model='poincare', degrees=True, as_string=True, geodesic=F
     _check_circle(h, "geodesic" if geodesic else "segment", c, r, th, ends, model, degrees)
 
 
+def segment_ideal(h, n=2):
+    """ideal endpoints of a segment: lightlike, distinct, on the Klein line through the endpoints (every path of the quadratic formula)"""
+    x, y = _interior(h, 'x', n), _interior(h, 'y', n)
+    h.assume(_anynz(h, x - y), 'distinct endpoints')
+    p, q = hyperbolic.Point(x.copy(), model="klein"), hyperbolic.Point(y.copy(), model="klein")
+    mk = h.mark()
+    S = hyperbolic.Segment(p, q)
+    J = np.diag([-1] + [1] * n)
+    for k in range(2):
+        v = S.aux_data[k]
+        h.eq(f"ideal endpoint {k} lightlike", v @ J @ v, 0)
+        # in the span of the two endpoints: all 3x3 minors of [p; q; v] vanish
+        M = np.array([S.proj_data[0], S.proj_data[1], v], dtype=object if h.is_sym() else float)
+        import itertools
+        mins = [_det(M[:, list(c)]) for c in itertools.combinations(range(n + 1), 3)]
+        h.eq(f"ideal endpoint {k} on the Klein line through the endpoints", np.array(mins, dtype=object if h.is_sym() else float), 0, validate=False)
+        h.holds(f"ideal endpoint {k} is a non-zero vector", _anynz(h, v))
+    cr = [S.aux_data[0][i] * S.aux_data[1][j] - S.aux_data[0][j] * S.aux_data[1][i] for i in range(n + 1) for j in range(i + 1, n + 1)]
+    h.holds("the two ideal endpoints are distinct", _anynz(h, np.array(cr, dtype=object if h.is_sym() else float)))
+    h.defined("finite (no division by zero, real square root)", mk)
+
+
 def geodesic_from_ideal(h, model='poincare', degrees=True, as_string=True, a_fixed=None):
     """a geodesic given by two symbolic ideal endpoints (rational parametrisation of the circle)"""
     a, b = _ideal(h, 'a', 2), _ideal(h, 'b', 2)
